@@ -77,6 +77,27 @@ def target_section(rng, thorough, rundir, model_run, res, count):
     return len(ops), dis
 
 
+def h6(data_list):
+    """a content as the model sees it: the first 6 bytes of its BLAKE3 (= the 12 hex digits of a conflict-copy name)"""
+    return [h[:12] for h in blake3_hex(data_list)]
+
+
+def tree_tok6(tree):
+    if not tree:
+        return "-"
+    ks = sorted(tree)
+    return ";".join(f"{hexs(k)}={h}" for k, h in zip(ks, h6([tree[k] for k in ks])))
+
+
+def multi_query(hub_before, client_trees, schedule):
+    """`hubmulti` query for Model/HubMulti: clients walk their files in path order"""
+    return f"hubmulti {tree_tok6(hub_before)} {'|'.join(tree_tok6(t) for t in client_trees)} {','.join(str(i) for i in schedule) if schedule else '-'}"
+
+
+def multi_impl(hub_after, counts):
+    return f"tree={tree_tok6(hub_after)} counters={','.join('?' if c is None else f'{c[0]}/{c[1]}/{c[2]}' for c in counts)}"
+
+
 def run(pid, tier, seed, rundir, model_run):
     rng = Rng(seed ^ 0xC13)
     res = {"violations": [], "broken": [], "notes": [], "distribution": {}, "samples": []}
@@ -87,6 +108,7 @@ def run(pid, tier, seed, rundir, model_run):
 
     n = 45 * (12 if tier == "thorough" else 1)
     nrun = 0
+    mq, mi, mr = [], [], []      # model queries (Model/HubMulti), the real outcome, report
     for i in range(n):
         mode = ["local", "ssh", "stale", "seq"][i % 4]
         if mode == "seq":
@@ -126,6 +148,7 @@ def run(pid, tier, seed, rundir, model_run):
                     hist.append(f"client{c} hub-sync rc={rc} {out.strip()[-60:]}")
                     hub1 = hub_state(hubroot)
                     rep = {"mode": "seq" + ("/ssh" if use_ssh else "/local"), "history": list(hist), "local": {k: v.decode() for k, v in t.items()}}
+                    mq.append(multi_query(hub_before, [t], [0] * (len(t) + 1))); mi.append(multi_impl(hub1, [parse_counts(out)])); mr.append(rep)
                     if rc == 0:
                         for k, v in t.items():
                             if hub1.get(k) != v:
@@ -158,6 +181,7 @@ def run(pid, tier, seed, rundir, model_run):
                 nrun += 1
                 hub1 = hub_state(hubroot)
                 rep.update(rc=rc, stdout=out[-300:], stderr=err[-300:])
+                mq.append(multi_query(hub0, [local], [0] * (len(local) + 1))); mi.append(multi_impl(hub1, [parse_counts(out)])); mr.append(dict(rep))
                 if rc == 0:
                     for k, v in local.items():
                         if hub1.get(k) != v:
@@ -203,6 +227,10 @@ def run(pid, tier, seed, rundir, model_run):
                 hub1 = hub_state(hubroot)
                 rep.update(rc=rc1, victim=victim, paused=paused, client2_rc=rc2, stdout=o1.decode("utf-8", "replace")[-300:], stderr=e1.decode("utf-8", "replace")[-300:])
                 count("stale/paused" if paused else "stale/not-paused(all files skipped)")
+                if paused:
+                    # client 1 lists, client 2 runs completely, client 1 sends its requests: one schedule of the multi-client model
+                    c1 = parse_counts(o1.decode("utf-8", "replace")); c2 = parse_counts(out2.decode("utf-8", "replace"))
+                    mq.append(multi_query(hub0, [local, {victim: other}], [0] + [1, 1] + [0] * len(local))); mi.append(multi_impl(hub1, [c1, c2])); mr.append(dict(rep))
                 # every local file retrievable: at its path or as a conflict-copy
                 hs = dict(zip(sorted(local), blake3_hex([local[k] for k in sorted(local)])))
                 # excused: a file client 1 had nothing to send for (the hub already held exactly these bytes when it listed) and
@@ -227,10 +255,23 @@ def run(pid, tier, seed, rundir, model_run):
                             res["violations"].append(("exit0-but-local-file-not-on-hub", f"exit 0 but hub/{k} does not hold the local bytes", rep))
             if len(res["samples"]) < 6:
                 res["samples"].append({k: (str(v)[:120]) for k, v in rep.items()})
-    open(os.path.join(rundir, "ops.txt"), "w").close()
+    with open(os.path.join(rundir, "ops.txt"), "w") as f:
+        f.write("\n".join(mq) + ("\n" if mq else ""))
+    mm = model_run(os.path.join(rundir, "ops.txt")) if mq else []
+    mdis = 0
+    for q, im, mo, rp in zip(mq, mi, mm + [None] * (len(mq) - len(mm)), mr):
+        if im != mo:
+            mdis += 1
+            if len(res.setdefault("disagreements", [])) < 8:
+                res["disagreements"].append({"query": q[:600], "impl": im[:600], "model": (mo or "")[:600], "case": {k: str(v)[:200] for k, v in rp.items()}})
+    count("model-compared-runs", len(mq))
+    if mdis:
+        res["broken"].append(f"C13/corr/multi-client: hub tree / counters after {mdis} of {len(mq)} real runs differ from Model/HubMulti (theorems C13.step_lands, step_overwrites_only_listed, run_steps_safe)")
     ntgt, tdis = target_section(rng, tier == "thorough", rundir, model_run, res, count)
+    tdis += mdis
     res.update(evaluations=nrun + ntgt, distinct_nontrivial=n, n_disagreements=tdis, n_oracle_failures=len(res["violations"]),
                rule="hub trees of 0–4 files and local trees of 0–7 files over names incl. nested, spaces, `.copia`-prefixed user files, conflict-looking names; some local files already on the hub (same / changed); "
                     "targets: local path, `host:root` via the SSH stand-in, and `host:root` via a relay that pauses client 1 after its List while client 2 commits different bytes at one of client 1's paths. "
+                    "Every real run (single, sequential multi-client, and the stale interleaving client 1 List / client 2 whole run / client 1 requests) is replayed as a schedule of Model/HubMulti: hub tree (path ↦ hash, conflict-copy names included) and sent/skipped/conflict counters must agree. "
                     "Oracles: exit-0 postcondition, untouched other paths, second run sends nothing; after a stale run every local file is at its path or at its conflict-copy and client 2's commit survives.")
     return res
